@@ -355,6 +355,12 @@ class Client(ClientLike):
         else:
             msg_set = set([ALL_MESSAGE_TYPES])
 
+        # refuse the whole request before anything is recorded or sent
+        # if an entry cannot be a message type (raises TypeError / ValueError)
+        probe = cd.MDF_SUBSCRIBE()
+        for msg_type in msg_set:
+            probe.msg_type = msg_type
+
         # Note: Ignore any sub control for individual msg_types
         # when subscribed to ALL_MESSAGE_TYPES
         if self._sub_all and not all_msg:
